@@ -15,6 +15,7 @@ import (
 	"fmt"
 	"io"
 	"strconv"
+	"strings"
 
 	"github.com/klauspost/compress/zstd"
 )
@@ -286,6 +287,56 @@ func GzipMember(b []byte) []byte {
 	zw.Write(b)
 	zw.Close()
 	return buf.Bytes()
+}
+
+// GzipMemberSized returns a valid gzip member of exactly size bytes that decompresses to b (the compression
+// level is searched and the header padded with a file name), or false if none was found.
+func GzipMemberSized(b []byte, size int) ([]byte, bool) {
+	for _, lv := range []int{gzip.BestCompression, gzip.DefaultCompression, 6, 5, 4, 3, 2, gzip.BestSpeed, gzip.HuffmanOnly, gzip.NoCompression} {
+		var buf bytes.Buffer
+		zw, _ := gzip.NewWriterLevel(&buf, lv)
+		zw.Write(b)
+		zw.Close()
+		d := size - buf.Len()
+		if d == 0 {
+			return buf.Bytes(), true
+		}
+		if d < 2 {
+			continue
+		}
+		buf.Reset()
+		zw, _ = gzip.NewWriterLevel(&buf, lv)
+		zw.Name = strings.Repeat("p", d-1) // FNAME: d-1 bytes + NUL
+		zw.Write(b)
+		zw.Close()
+		if buf.Len() == size {
+			return buf.Bytes(), true
+		}
+	}
+	return nil, false
+}
+
+// ZstdFrameSized returns a zstd frame followed by a skippable frame, together exactly size bytes, that
+// decompress to b, or false.
+func ZstdFrameSized(b []byte, size int) ([]byte, bool) {
+	for _, lv := range []zstd.EncoderLevel{zstd.SpeedBestCompression, zstd.SpeedBetterCompression, zstd.SpeedDefault, zstd.SpeedFastest} {
+		var buf bytes.Buffer
+		zw, _ := zstd.NewWriter(&buf, zstd.WithEncoderLevel(lv))
+		zw.Write(b)
+		zw.Close()
+		d := size - buf.Len()
+		if d == 0 {
+			return buf.Bytes(), true
+		}
+		if d < 8 {
+			continue
+		}
+		out := append([]byte(nil), buf.Bytes()...)
+		out = append(out, 0x50, 0x2a, 0x4d, 0x18, byte(d-8), byte((d-8)>>8), byte((d-8)>>16), byte((d-8)>>24))
+		out = append(out, make([]byte, d-8)...)
+		return out, true
+	}
+	return nil, false
 }
 
 // ZstdFrame compresses b as one zstd frame.
